@@ -629,3 +629,264 @@ Proof.
     f_equal; [f_equal; [exact H0|apply Hx; exact H1]|apply IHl; exact H2].
 Qed.
 
+
+(* ------------------------------------------------------------------ cache coherence *)
+Section Coherence.
+  Variable files : list (str * json).
+  (* pruning a load that was already pruned for the same version changes nothing *)
+  Hypothesis Hidem : forall name root v e1,
+    assoc (schema_file_name name) files = Some root ->
+    prune_entry v (mk_entry root files) = Ok e1 -> prune_entry v e1 = Ok e1.
+
+  Notation pair := (str * option vnum)%type.
+  Definition call_pair (c : call) : pair :=
+    match c with CValidate _ n v => (n, v) | CVersioned v n => (n, v) | CExpanded n v => (n, v) end.
+  Definition key_of (p : pair) : str := cache_key (fst p) (snd p).
+
+  (* the side condition: the cache keys schema_name + str(version) of the calls do not collide *)
+  Definition collision_free (ps : list pair) : Prop :=
+    forall p q, In p ps -> In q ps -> key_of p = key_of q -> p = q.
+
+  Definition load (name : str) : option entry :=
+    match assoc (schema_file_name name) files with
+    | Some root => Some (mk_entry root files)
+    | None => None
+    end.
+
+  Definition entry_ok (p : pair) (e : entry) : Prop :=
+    exists e0, load (fst p) = Some e0 /\
+      (e = e0 \/ exists v, snd p = Some v /\ vtruthy (snd p) = true /\ prune_entry (vnum_num v) e0 = Ok e).
+
+  Definition Inv (P : list pair) (s : vstate) : Prop :=
+    (forall key e, assoc key (expanded_schemas s) = Some e -> exists p, In p P /\ key = key_of p /\ entry_ok p e) /\
+    (forall n j, assoc n (schemas s) = Some j -> assoc (schema_file_name n) files = Some j).
+
+  Lemma Inv_init P : Inv P init_state.
+  Proof. split; cbn; intros; discriminate. Qed.
+
+  Lemma Inv_weaken p P s : Inv P s -> Inv (p :: P) s.
+  Proof.
+    intros [H1 H2]. split; [|exact H2]. intros key e H. destruct (H1 key e H) as (q & Hq & Hk & Ho).
+    exists q. split; [right; exact Hq|auto].
+  Qed.
+
+  Lemma Inv_set p P s e :
+    Inv P s -> In p P -> entry_ok p e ->
+    Inv P (mk_vstate (schemas s) (od_set (key_of p) e (expanded_schemas s))).
+  Proof.
+    intros [H1 H2] Hp Ho. split; [|exact H2]. cbn [expanded_schemas]. intros key e' H.
+    destruct (str_eqb_spec key (key_of p)) as [->|Hne].
+    - rewrite get_set_same in H. injection H as <-. exists p. auto.
+    - rewrite get_set_other in H by exact Hne. exact (H1 key e' H).
+  Qed.
+
+  Lemma get_schema_file_load name :
+    get_schema_file files name =
+    match load name with Some _ => Ok (schema_file_name name) | None => Err PyIOError end.
+  Proof. unfold get_schema_file, load. destruct (assoc (schema_file_name name) files); reflexivity. Qed.
+
+  (* get_expanded_schema on any reachable state *)
+  Lemma ges_inv P s name ver :
+    Inv P s -> (forall q, In q P -> key_of q = key_of (name, ver) -> q = (name, ver)) ->
+    match get_expanded_schema files name ver s with
+    | Ok (e, s') => entry_ok (name, ver) e /\ Inv ((name, ver) :: P) s' /\ schemas s' = schemas s /\
+                    (ver = None -> load name = Some e) /\
+                    (vtruthy ver = false -> load name = Some e)
+    | Err x => load name = None /\ x = PyIOError
+    end.
+  Proof.
+    intros HI Hfree. unfold get_expanded_schema.
+    change (cache_key name ver) with (key_of (name, ver)).
+    destruct (assoc (key_of (name, ver)) (expanded_schemas s)) as [e|] eqn:E.
+    - destruct HI as [H1 H2]. destruct (H1 _ _ E) as (q & Hq & Hk & Ho).
+      assert (q = (name, ver)) by (apply Hfree; [exact Hq|symmetry; exact Hk]). subst q.
+      split; [exact Ho|]. split; [apply Inv_weaken; split; assumption|]. split; [reflexivity|].
+      destruct Ho as (e0 & Hl & [->|(v & Hv & Ht & Hp)]); cbn [fst snd] in *.
+      + auto.
+      + split; intros Hx; [congruence|]. rewrite Hx in Ht. discriminate.
+    - rewrite get_schema_file_load. unfold load.
+      destruct (assoc (schema_file_name name) files) as [root|] eqn:Er; cbn [bind].
+      + rewrite Er. assert (Ho : entry_ok (name, ver) (mk_entry root files)).
+        { exists (mk_entry root files). cbn [fst]. unfold load. rewrite Er. auto. }
+        split; [exact Ho|]. split; [|auto].
+        apply (Inv_set (name, ver)); [apply Inv_weaken; exact HI|left; reflexivity|exact Ho].
+      + auto.
+  Qed.
+
+  (* the answer of get_versioned_schema on a fresh Validator *)
+  Definition fresh_gvs (name : str) (ver : option vnum) : res entry :=
+    match load name with
+    | None => Err PyIOError
+    | Some e0 =>
+        match ver with
+        | Some v => if vtruthy ver then prune_entry (vnum_num v) e0 else Ok e0
+        | None => Ok e0
+        end
+    end.
+
+  Lemma gvs_inv P s name ver :
+    Inv P s -> (forall q, In q P -> key_of q = key_of (name, ver) -> q = (name, ver)) ->
+    fst (get_versioned_schema files ver name s) = fresh_gvs name ver /\
+    Inv ((name, ver) :: P) (snd (get_versioned_schema files ver name s)) /\
+    schemas (snd (get_versioned_schema files ver name s)) = schemas s.
+  Proof.
+    intros HI Hfree. pose proof (ges_inv P s name ver HI Hfree) as G.
+    unfold get_versioned_schema, fresh_gvs.
+    destruct (get_expanded_schema files name ver s) as [[e s1]|x].
+    - destruct G as (Ho & HI1 & Hs & Hnone & Hfalsy).
+      destruct ver as [v|]; [|cbn [fst snd]; rewrite (Hnone eq_refl); auto].
+      destruct (vtruthy (Some v)) eqn:Et; [|cbn [fst snd]; rewrite (Hfalsy eq_refl); auto].
+      destruct Ho as (e0 & Hl & He). cbn [fst snd] in Hl, He. rewrite Hl.
+      assert (Hp : prune_entry (vnum_num v) e = prune_entry (vnum_num v) e0 \/
+                   (prune_entry (vnum_num v) e = Ok e /\ prune_entry (vnum_num v) e0 = Ok e)).
+      { destruct He as [->|(v' & Hv & _ & Hp)]; [left; reflexivity|right].
+        injection Hv as <-. split; [|exact Hp].
+        unfold load in Hl. destruct (assoc (schema_file_name name) files) as [root|] eqn:Er; [|discriminate].
+        injection Hl as <-. eapply Hidem; eassumption. }
+      assert (Hres : prune_entry (vnum_num v) e = prune_entry (vnum_num v) e0).
+      { destruct Hp as [Hp|[Hp1 Hp2]]; congruence. }
+      rewrite Hres.
+      destruct (prune_entry (vnum_num v) e0) as [e'|x] eqn:Ep; cbn [fst snd]; [|auto].
+      split; [reflexivity|]. split; [|cbn [schemas]; exact Hs].
+      change (cache_key name (Some v)) with (key_of (name, Some v)).
+      apply (Inv_set (name, Some v)); [exact HI1|left; reflexivity|].
+      exists e0. cbn [fst snd]. split; [exact Hl|]. right. exists v. auto.
+    - destruct G as [Hl ->]. rewrite Hl. cbn [fst snd]. split; [reflexivity|]. split; [apply Inv_weaken; exact HI|reflexivity].
+  Qed.
+
+  Lemma gjf_inv P s name :
+    Inv P s ->
+    match get_json_from_file files name s with
+    | Ok (j, s') => assoc (schema_file_name name) files = Some j /\ Inv P s'
+    | Err x => assoc (schema_file_name name) files = None /\ x = PyIOError
+    end.
+  Proof.
+    intros [H1 H2]. unfold get_json_from_file.
+    destruct (assoc name (schemas s)) as [j|] eqn:E.
+    - split; [exact (H2 _ _ E)|split; assumption].
+    - unfold get_schema_file. destruct (assoc (schema_file_name name) files) as [j|] eqn:Er; cbn [bind].
+      + rewrite Er. split; [reflexivity|]. split; [exact H1|]. cbn [schemas]. intros n j' H.
+        destruct (str_eqb_spec n name) as [->|Hne].
+        * rewrite get_set_same in H. congruence.
+        * rewrite get_set_other in H by exact Hne. exact (H2 _ _ H).
+      + auto.
+  Qed.
+
+  (* the tree validation runs on, on a fresh Validator *)
+  Definition fresh_tree (name : str) (ver : option vnum) : res json :=
+    if vtruthy ver then
+      match fresh_gvs name ver with Ok e => Ok (entry_tree e) | Err x => Err x end
+    else
+      match assoc (schema_file_name name) files with
+      | Some root => Ok (expand files root)
+      | None => Err PyIOError
+      end.
+
+  Lemma vtree_inv P s name ver :
+    Inv P s -> (forall q, In q P -> key_of q = key_of (name, ver) -> q = (name, ver)) ->
+    fst (validator_tree files name ver s) = fresh_tree name ver /\
+    Inv ((name, ver) :: P) (snd (validator_tree files name ver s)).
+  Proof.
+    intros HI Hfree. unfold validator_tree, fresh_tree.
+    destruct (vtruthy ver).
+    - destruct (gvs_inv P s name ver HI Hfree) as (A1 & A2 & _).
+      destruct (get_versioned_schema files ver name s) as [[e|x] s1]; cbn [fst snd] in *; rewrite <- A1; auto.
+    - pose proof (gjf_inv P s name HI) as G.
+      destruct (get_json_from_file files name s) as [[j s1]|x].
+      + destruct G as [Hj HI1]. rewrite Hj. cbn [fst snd]. split; [reflexivity|apply Inv_weaken; exact HI1].
+      + destruct G as [Hj ->]. rewrite Hj. cbn [fst snd]. split; [reflexivity|apply Inv_weaken; exact HI].
+  Qed.
+
+  (* the answer of a call on a brand-new Validator *)
+  Definition fresh (c : call) : answer := fst (step files init_state c).
+
+  Lemma no_keys_init (q : pair) : In q [] -> forall p, key_of q = key_of p -> q = p.
+  Proof. intros []. Qed.
+
+  Lemma fresh_validate d name ver :
+    fresh (CValidate d name ver) =
+    AMsgs (match fresh_tree name ver with Ok t => run_validator t d | Err x => Err x end).
+  Proof.
+    unfold fresh, step, validate.
+    destruct (vtree_inv [] init_state name ver (Inv_init []) (fun q H => match H with end)) as [A _].
+    destruct (validator_tree files name ver init_state) as [[t|x] s1]; cbn [fst] in A; rewrite <- A; reflexivity.
+  Qed.
+
+  Lemma fresh_versioned ver name :
+    fresh (CVersioned ver name) =
+    ASchema (match fresh_gvs name ver with Ok e => Ok (entry_tree e) | Err x => Err x end).
+  Proof.
+    unfold fresh, step.
+    destruct (gvs_inv [] init_state name ver (Inv_init []) (fun q H => match H with end)) as (A & _ & _).
+    destruct (get_versioned_schema files ver name init_state) as [[e|x] s1]; cbn [fst] in A; rewrite <- A; reflexivity.
+  Qed.
+
+  Lemma fresh_expanded name ver :
+    fresh (CExpanded name ver) =
+    ASchema (match load name with Some e0 => Ok (entry_tree e0) | None => Err PyIOError end).
+  Proof.
+    unfold fresh, step, get_expanded_schema. cbn [expanded_schemas init_state assoc].
+    rewrite get_schema_file_load. unfold load.
+    destruct (assoc (schema_file_name name) files) as [root|] eqn:Er; cbn [bind]; [rewrite Er|]; reflexivity.
+  Qed.
+
+  (* what coherence means per call: the fresh answer; for get_expanded_schema
+     WITH a version (the per-version cache object itself, not an observation
+     point of the property) the fresh answer or the versioned schema *)
+  Definition coherent (c : call) (a : answer) : Prop :=
+    match c with
+    | CExpanded name (Some v) => a = fresh c \/ a = fresh (CVersioned (Some v) name)
+    | _ => a = fresh c
+    end.
+
+  Lemma step_inv P s c :
+    Inv P s -> (forall q, In q P -> key_of q = key_of (call_pair c) -> q = call_pair c) ->
+    coherent c (fst (step files s c)) /\ Inv (call_pair c :: P) (snd (step files s c)).
+  Proof.
+    intros HI Hfree. destruct c as [d name ver|ver name|name ver]; cbn [call_pair] in *.
+    - (* validate *)
+      cbn [coherent]. rewrite fresh_validate. unfold step, validate.
+      destruct (vtree_inv P s name ver HI Hfree) as [A1 A2].
+      destruct (validator_tree files name ver s) as [[t|x] s1]; cbn [fst snd] in *; rewrite <- A1; auto.
+    - (* get_versioned_schema *)
+      cbn [coherent]. rewrite fresh_versioned. unfold step.
+      destruct (gvs_inv P s name ver HI Hfree) as (A1 & A2 & _).
+      destruct (get_versioned_schema files ver name s) as [[e|x] s1]; cbn [fst snd] in *; rewrite <- A1; auto.
+    - (* get_expanded_schema *)
+      unfold step. pose proof (ges_inv P s name ver HI Hfree) as G.
+      destruct (get_expanded_schema files name ver s) as [[e s1]|x].
+      + destruct G as (Ho & HI1 & _ & Hnone & _). cbn [fst snd]. split; [|exact HI1].
+        destruct Ho as (e0 & Hl & He). cbn [fst snd] in Hl, He.
+        destruct ver as [v|]; cbn [coherent].
+        * rewrite fresh_expanded, fresh_versioned. unfold fresh_gvs. rewrite Hl.
+          destruct He as [->|(v' & Hv & Ht & Hp)]; [left; reflexivity|right].
+          injection Hv as <-. rewrite Ht, Hp. reflexivity.
+        * rewrite fresh_expanded, (Hnone eq_refl). reflexivity.
+      + destruct G as [Hl ->]. cbn [fst snd]. split; [|apply Inv_weaken; exact HI].
+        destruct ver as [v|]; cbn [coherent]; [left|]; rewrite fresh_expanded, Hl; reflexivity.
+  Qed.
+
+  Lemma run_coherent_from P s cs :
+    Inv P s -> collision_free (map call_pair cs ++ P) ->
+    Forall2 coherent cs (run files s cs).
+  Proof.
+    revert P s. induction cs as [|c cs IH]; intros P s HI Hfree; cbn [run]; [constructor|].
+    assert (Hc : forall q, In q P -> key_of q = key_of (call_pair c) -> q = call_pair c).
+    { intros q Hq Hk. apply Hfree; [apply in_or_app; right; exact Hq|left; reflexivity|exact Hk]. }
+    destruct (step_inv P s c HI Hc) as [A1 A2].
+    destruct (step files s c) as [a s1]. cbn [fst snd] in *.
+    constructor; [exact A1|].
+    apply (IH (call_pair c :: P) s1 A2).
+    intros p q Hp Hq. apply Hfree.
+    - cbn [map app]. apply in_app_or in Hp. destruct Hp as [Hp|[<-|Hp]];
+        [right; apply in_or_app; left; exact Hp|left; reflexivity|right; apply in_or_app; right; exact Hp].
+    - cbn [map app]. apply in_app_or in Hq. destruct Hq as [Hq|[<-|Hq]];
+        [right; apply in_or_app; left; exact Hq|left; reflexivity|right; apply in_or_app; right; exact Hq].
+  Qed.
+
+  Theorem cache_coherent_lemma cs :
+    collision_free (map call_pair cs) -> Forall2 coherent cs (run files init_state cs).
+  Proof.
+    intros H. apply (run_coherent_from [] init_state cs (Inv_init [])). rewrite app_nil_r. exact H.
+  Qed.
+End Coherence.
